@@ -488,6 +488,20 @@ def _cap_value(ctx, g, a, scope, depth=0):
         vals = [None if isinstance(d, tuple) else _cap_value(ctx, g, d, scope, depth + 1) for d in defs]
         return min(vals) if all(x is not None for x in vals) else None
     ps = [x.arg for x in g.node.args.posonlyargs + g.node.args.args]
+    kwonly = {x.arg: d for x, d in zip(g.node.args.kwonlyargs, g.node.args.kw_defaults)}
+    if a.id in kwonly:
+        # keyword-only parameter: the keyword at every call site, or the default
+        vals = []
+        for q in sorted(scope):
+            h = ctx.model.funcs[q]
+            hinf = ctx.inf(q)
+            for n in ast.walk(h.node):
+                if isinstance(n, ast.Call) and any(t.qname == g.qname for t in hinf.targets(n, ("call",))):
+                    e = next((k.value for k in n.keywords if k.arg == a.id), kwonly[a.id])
+                    vals.append(None if e is None else _cap_value(ctx, h, e, scope, depth + 1))
+        if not vals and kwonly[a.id] is not None:
+            vals = [_cap_value(ctx, g, kwonly[a.id], scope, depth + 1)]
+        return min(vals) if vals and all(x is not None for x in vals) else None
     if a.id not in ps:
         return None
     idx = ps.index(a.id)
